@@ -539,6 +539,13 @@ func (db *DB) ResetLocalState(ctx context.Context) error {
 
 	db.invalidatePosCache()
 
+	// What is remembered about the WAL (synced offset, "synced to the end") was
+	// measured against the files just removed; the baseline fetched below is an
+	// older position.
+	db.mu.Lock()
+	db.syncState = syncState{}
+	db.mu.Unlock()
+
 	// Local TXIDs must not start over below what the replica already holds:
 	// re-establish the baseline from the replica, as init does for a database that
 	// is behind its replica.
